@@ -513,7 +513,7 @@ def gen_hlg(rng):
 # API level: stacks of blockwise-family array operations; cull to block subsets; optimize_blockwise on/off
 # ------------------------------------------------------------------------------------------------
 
-STACK_W = {"un": 3, "bin": 5, "T": 3, "bwsum": 2, "bwlist": 2, "mb": 2, "mb_new": 3, "mb_drop": 2, "dot": 2, "bw2": 4,
+STACK_W = {"un": 3, "bin": 5, "T": 3, "bwsum": 2, "bwlist": 2, "mb": 2, "mb_new": 3, "mb_drop": 2, "dot": 2, "bw2": 4, "bwc": 4,
            "where": 1, "sum": 1, "astype": 1, "expand": 1, "bcast": 1}
 
 
@@ -546,11 +546,34 @@ def case_stack(ctx, inp):
         sub = [keys[i % len(keys)] for i in idx] if idx else keys
         sub = list(dict.fromkeys(sub))
         g = d.__dask_graph__()
-        starts = [U.cumsum0(c) for c in d.chunks]
+        expected = {}
+
+        def add_expected(arr, val, ks):
+            starts = [U.cumsum0(c) for c in arr.chunks]
+            for k in ks:
+                expected[k] = val[tuple(slice(st[i], st[i + 1]) for st, i in zip(starts, k[1:]))]
+        add_expected(d, x, sub)
+        # a second requested collection: an INNER node of the same program (same deterministic names), so that a
+        # layer that is itself an output must not be fused away (`keep` of optimize_blockwise)
+        inner = inp.get("inner")
+        if inner is not None:
+            q = prog
+            for step in inner:
+                q = q[step] if isinstance(q, dict) and step in q and isinstance(q[step], dict) else None
+                if q is None:
+                    break
+            if q is not None and q.get("op") not in ("scalar", "npleaf"):
+                d2 = U.run_prog(q, "da")
+                x2 = U.run_prog(q, "np")
+                k2 = list(flatten(d2.__dask_keys__()))
+                if d2.name in g.layers:
+                    ks2 = [k2[i % len(k2)] for i in (idx or [0])][:2]
+                    add_expected(d2, x2, ks2)
+                    sub = list(dict.fromkeys(sub + ks2))
+                    ctx.branch("inner-node-also-requested")
 
         def expect(k):
-            sl = tuple(slice(st[i], st[i + 1]) for st, i in zip(starts, k[1:]))
-            return x[sl]
+            return expected[k]
         names, syms = U.Interner(), U.Interner()
         for opt in (False, True):
             h = optimize_blockwise(g, keys=sub) if opt else g
@@ -762,4 +785,5 @@ def generate(ctx):
     for _ in range(ctx.n(70, 700)):
         p, x = G.gen(rng.randint(1, 4))
         nb = rng.randint(1, 4)
-        yield "stack", {"prog": p, "blocks": [rng.randrange(64) for _ in range(nb)] if rng.random() < 0.8 else None}
+        inner = (["a"] + [rng.choice(["a", "a", "b"]) for _ in range(rng.choice([0, 0, 1]))]) if rng.random() < 0.6 else None
+        yield "stack", {"prog": p, "blocks": [rng.randrange(64) for _ in range(nb)] if rng.random() < 0.8 else None, "inner": inner}
